@@ -62,6 +62,7 @@ Failed(r) ==
       THEN {} ELSE {"extract_x_z_syndrome_is_the_masked_part"})
 \cup (LET a == r.api IN
       IF /\ a.n_stabilizers = Len(r.stabs)
+         /\ a.coordinates_as_defined
          /\ a.qubits_are_qubits /\ a.stabs_are_not_qubits /\ a.stabs_are_stabs
          /\ a.qubits_are_not_stabs /\ a.typed_membership
          /\ a.qubit_index = [q \in DOMAIN r.qcoords |-> q - 1]
